@@ -146,6 +146,8 @@ class Analyzer:
         if v[0] == "int":
             return v[1] != 0
         if v[0] == "guard":
+            if v[1][0] == "size_of":
+                return None   # performance-only branch: both arms are explored
             self.guards_seen.add(v[1])
             g = env.get("$guards", {}).get(v[1])
             if g is None:
@@ -281,10 +283,7 @@ class Analyzer:
                 return None
             if c == "savefile::IsPacked::no":
                 return ("bool", False)
-            if c in ("str::as_bytes", "alloc::string::String::into_bytes", "alloc::string::ToString::to_string",
-                     "alloc::string::String::as_bytes", "alloc::borrow::ToOwned::to_owned", "core::convert::Into::into",
-                     "core::convert::From::from", "alloc::string::String::as_str", "alloc::vec::Vec::as_slice",
-                     "core::ops::deref::Deref::deref", "core::convert::AsRef::as_ref") and n["args"]:
+            if c.split("::")[-1] in BYTES_PASSTHROUGH and "::".join(c.split("::")[-2:]) in BYTES_PASSTHROUGH_Q and n["args"]:
                 v = self.val(n["args"][0], env)
                 if v and v[0] == "bytes":
                     return v
@@ -1029,6 +1028,11 @@ class Analyzer:
     def reject(e):
         return alt(e.nerr, e.rerr)
 
+
+BYTES_PASSTHROUGH_Q = {"str::as_bytes", "String::into_bytes", "ToString::to_string", "String::as_bytes", "ToOwned::to_owned",
+                       "Into::into", "From::from", "String::as_str", "Vec::as_slice", "Deref::deref", "AsRef::as_ref",
+                       "str::to_string", "str::to_owned", "String::from", "Vec::deref", "String::deref", "str::into"}
+BYTES_PASSTHROUGH = {q.split("::")[-1] for q in BYTES_PASSTHROUGH_Q}
 
 RESULT_COMBINATORS = {
     "core::result::Result::map_err", "core::result::Result::map", "core::result::Result::and_then",
